@@ -930,6 +930,8 @@ void matrixSslDeleteSession(ssl_t *ssl)
         /* CertificateVerify signature of a handshake that did not finish */
         psFree(ssl->sec.tls13CvSig, ssl->hsPool);
         ssl->sec.tls13CvSig = NULL;
+        psFree(ssl->sec.tls13NstMsg, ssl->hsPool);
+        ssl->sec.tls13NstMsg = NULL;
     }
 #endif
 #ifdef REQUIRE_DH_PARAMS
